@@ -14,6 +14,12 @@ ENGINES = [
 NOTES = "Property-based testing and fuzzing only. See DESIGN.md. Known findings: /verif/known_findings.json."
 NOT_APPLICABLE = {}
 CHECKS = {
+    "C05": {
+        "text": "Targeted generation: a fully annotated world plus one generated target (function/method/constructor signature, annotated definition, declared return type) and one use planted at one of 12 positions; 2/7 conforming (must be accepted), 5/7 with one single-point non-conforming mutation (must be rejected with diagnostics). ~11k cases per quick run; the kind x position x mutation histogram is part of the evidence.",
+        "design_ref": "DESIGN.md section 6 C05",
+        "note": "Subtyping used for 'conforming' is exactly Int <: Float, B <: A, T <: Any; undocumented pairs are never used. Unexpected verdicts are re-run 10x (C12). Two open over-rejection findings steer the value generator.",
+        "technique": "property-based testing: single-point mutation of conforming uses with a verdict oracle from the declared signatures (Hypothesis)",
+    },
     "C15": {
         "text": "Metamorphic check: CoreGen programs and an injective renaming of their user-chosen names into ordinary and special-looking names; verdicts must agree, the output of the renamed program must be the renamed output (Python ast), and no renamed name may capture an identifier the generator itself introduced (scope-aware, via symtable). Two open findings remove the names they concern from the pool.",
         "design_ref": "DESIGN.md section 6 C15",
